@@ -251,7 +251,7 @@ int prop_rtti(Run& run) {
     };
     static const Var vars[] = {
         {"P_rel", 0, 1},  {"P_rel", 1, 1},   {"P_dbg", 4, 1},  {"P_vec", 0, 1},   {"P_map", 1, 1},  {"P_map", 2, 1},
-        {"P_proj", 5, 3}, {"P_projm", 5, 3}, {"P_def", 0, 1},  {"P_def", 1, 1},   {"P_ind", 3, 1},  {"P_indc", 4, 1},
+        {"P_proj", 5, 3}, {"P_projm", 5, 3}, {"P_projv", 6, 3}, {"P_def", 0, 1},  {"P_def", 1, 1},   {"P_ind", 3, 1},  {"P_indc", 4, 1},
     };
     for (long cs = 0; cs < run.cases; ++cs) {
         if (run.only_case >= 0 && cs != run.only_case)
